@@ -34,11 +34,12 @@ Section GateProofs.
   Variable backend : pystr -> pystr -> option pystr.
   Variable handler : pystr -> pystr -> pystr -> pystr -> hresp.
   Variable home_exists : pystr -> bool.
+  Variable home_exists_w : pystr -> bool.
   Variable rights_w : pystr -> bool.
   Variable create_fails : pystr -> bool.
 
-  Notation gate := (gate py_lower py_upper basic_decode backend handler home_exists rights_w create_fails).
-  Notation after_login := (after_login handler home_exists rights_w create_fails).
+  Notation gate := (gate py_lower py_upper basic_decode backend handler home_exists home_exists_w rights_w create_fails).
+  Notation after_login := (after_login handler home_exists home_exists_w rights_w create_fails).
   Notation creds := (creds basic_decode).
   Notation backend_login := (backend_login backend).
   Notation mapped := (mapped py_lower py_upper).
@@ -70,6 +71,7 @@ Section GateProofs.
            | H : False |- _ => contradiction
            | H : In _ [] |- _ => contradiction
            | H : EHome _ _ = EDispatch _ _ _ _ |- _ => discriminate H
+           | H : EHomeRecheck _ _ = EDispatch _ _ _ _ |- _ => discriminate H
            | H : EBackend _ _ = EDispatch _ _ _ _ |- _ => discriminate H
            | H : EDispatch _ _ _ _ = EDispatch _ _ _ _ |- _ => inversion H; subst; clear H
            end.
@@ -98,7 +100,7 @@ Section GateProofs.
   Lemma after_login_home : forall cfg env m bp path ext login user0 u c,
     In (EHome u c) (r_effects (after_login cfg env m bp path ext login user0)) ->
     u = user0 /\ user0 <> [] /\ is_safe_path_component user0 = true
-    /\ home_exists u = false /\ rights_w u = true /\ c = negb (create_fails u).
+    /\ home_exists u = false /\ home_exists_w u = false /\ rights_w u = true /\ c = negb (create_fails u).
   Proof.
     intros cfg env m bp path ext login user0 u c H.
     unfold Gate.after_login in H.
@@ -107,6 +109,7 @@ Section GateProofs.
              | H : _ \/ _ |- _ => destruct H
              | H : False |- _ => contradiction
              | H : EDispatch _ _ _ _ = EHome _ _ |- _ => discriminate H
+             | H : EHomeRecheck _ _ = EHome _ _ |- _ => discriminate H
              | H : EHome _ _ = EHome _ _ |- _ => inversion H; subst; clear H
              end;
       bool_norm; simpl in *; try congruence;
@@ -126,6 +129,7 @@ Section GateProofs.
              | H : False |- _ => contradiction
              | H : EDispatch _ _ _ _ = EBackend _ _ |- _ => discriminate H
              | H : EHome _ _ = EBackend _ _ |- _ => discriminate H
+             | H : EHomeRecheck _ _ = EBackend _ _ |- _ => discriminate H
              end.
   Qed.
 
@@ -230,7 +234,7 @@ Section GateProofs.
     In (EHome u c) (r_effects (gate cfg env)) ->
     exists ext l pw, creds cfg env = CCreds ext l pw /\ l <> [] /\
       backend_login (c_kind cfg) (mapped cfg l) pw = Some u /\ is_safe_path_component u = true
-      /\ home_exists u = false /\ rights_w u = true.
+      /\ home_exists u = false /\ home_exists_w u = false /\ rights_w u = true.
   Proof.
     intros cfg env u c H. unfold Gate.gate in *.
     destruct (base_prefix cfg env) as [f|bp0]; [cbn in H; contradiction|].
@@ -241,7 +245,7 @@ Section GateProofs.
     destruct (nonempty l) eqn:El.
     - destruct (backend_login (c_kind cfg) (mapped cfg l) pw) as [user0|] eqn:Eb.
       + cbn [with_effects r_effects app] in H. destruct H as [H|H]; [discriminate|].
-        apply after_login_home in H as (H1 & H2 & H3 & H4 & H5 & H6). subst.
+        apply after_login_home in H as (H1 & H2 & H3 & H4 & H4' & H5 & H6). subst.
         exists ext, l, pw. repeat split; auto. apply nonempty_true_neq; exact El.
       + cbn in H. destruct H as [H|H]; [discriminate|contradiction].
     - apply after_login_home in H as (H1 & H2 & _). congruence.
